@@ -93,9 +93,23 @@ var branchSets = []branchSet{
 	{"empty", "", "", "", ""},
 	{"multibyte", "└─🌿", "　　", "├─🍃", "┃　"},
 	{"distinct", "L", "l", "M", "m"},
-	{"empty-connectors", "", "a", "", "b"},  // connectors empty, continuation strings differ
-	{"overlapping", "|", "| ", "|-", "|  "}, // a connector that also occurs inside the continuation strings
+	{"empty-connectors", "", "a", "", "b"},       // connectors empty, continuation strings differ
+	{"overlapping", "|", "| ", "|-", "|  "},      // a connector that also occurs inside the continuation strings
 	{"unequal", "`--", "  ", "+---->", "|     "}, // connectors (and continuation strings) of different byte lengths
+	{"ruled", "|--", "|--", "|--", "|--"},        // one string for everything: every continuation ends in the connector's characters
+	{"blank-tail", "+- ", "|  ", "+- ", "   "},   // connectors with their own trailing blank
+}
+
+// InvalidUTF8Conc: names that are not valid UTF-8 (Latin-1 bytes, truncated and overlong sequences, surrogates), two of
+// them differing in an invalid byte only; for the text and walk routes (the encoders cannot carry such names).
+func InvalidUTF8Conc(branches int, chunkIDs []string) *Conc {
+	p := []string{"caf\xe9", "caf\xe8", "\xff\xfe", "a\xc3", "\x80x", "\xf0\x9f", "\xed\xa0\x80", "z\xc0\xaf"}
+	b := branchSets[branches%len(branchSets)]
+	c := &Conc{Name: "invalid-utf8/" + b.name, Chunks: map[string]string{}, WS: "\u3000", LD: b.ld, LI: b.li, MD: b.md, MI: b.mi, FinalNL: true}
+	for i, id := range chunkIDs {
+		c.Chunks[id] = p[i%len(p)]
+	}
+	return c
 }
 
 // NumBranchSets: how many branch-string sets MakeConc knows.
